@@ -43,11 +43,13 @@ def linalg_summary(I):
 def normal_summary(I):
     """experimental/misc.py normal_cdf / normal_pdf are replaced by the standard normal cdf / pdf (opaque heads Phi / phi with
     Phi(-x) = 1 - Phi(x), phi(-x) = phi(x)); the numerical guard inside misc.normal_cdf is not analysed."""
+    from .intrinsics import elementwise_inf
+
     def cdf(I_, selfobj, args, kw):
-        return nf.elementwise("Phi", args[0])
+        return elementwise_inf("Phi", args[0])
 
     def pdf_(I_, selfobj, args, kw):
-        return nf.elementwise("phi", args[0])
+        return elementwise_inf("phi", args[0])
     I.hooks[("experimental.misc", "normal_cdf")] = cdf
     I.hooks[("experimental.misc", "normal_pdf")] = pdf_
 
